@@ -114,6 +114,8 @@ pub fn families(tier: &str, profile: &str) -> Vec<(Arc<dyn Family>, Option<Vec<(
     v.push((family_d(), None));
     v.push((family_e(false), None));
     v.push((family_e(true), None));
+    v.push((family_a2(false, if thorough { 24 } else { 8 }), None));
+    v.push((family_a2(true, if thorough { 24 } else { 8 }), None));
     let (f, labels) = ladder_family(if thorough { None } else { Some(8) }, false);
     v.push((f, Some(labels)));
     if thorough {
